@@ -2,10 +2,10 @@ package main
 
 import (
 	"bytes"
+	"fmt"
 	"math"
 	"math/big"
 	"os"
-	"fmt"
 	"reflect"
 
 	"github.com/llir/llvm/ir"
@@ -85,7 +85,7 @@ type genParams struct {
 	// Swarm: only a random subset of the editing step kinds and of the
 	// instruction kinds is used in this program (so that the few kinds that are
 	// enabled meet each other far more often than in the full mix).
-	Swarm bool
+	Swarm     bool
 	Metadata  bool // allow metadata definitions and attachments
 	BlockAddr bool // allow blockaddress constants of blocks in global initialisers
 }
@@ -803,11 +803,19 @@ func (mc *machine) newInst(f *mfunc, k, c, d int) ir.Instruction {
 		}
 	case 25:
 		p, c1, n1 := mc.pick(f, tP32, c), mc.pick(f, tI32, d), mc.pick(f, tI32, c+d)
-		in = mc.via(func() ir.Instruction { return ir.NewCmpXchg(p, c1, n1, enum.AtomicOrderingSequentiallyConsistent, enum.AtomicOrderingMonotonic) }, func(vb *ir.Block) ir.Instruction { return vb.NewCmpXchg(p, c1, n1, enum.AtomicOrderingSequentiallyConsistent, enum.AtomicOrderingMonotonic) })
+		in = mc.via(func() ir.Instruction {
+			return ir.NewCmpXchg(p, c1, n1, enum.AtomicOrderingSequentiallyConsistent, enum.AtomicOrderingMonotonic)
+		}, func(vb *ir.Block) ir.Instruction {
+			return vb.NewCmpXchg(p, c1, n1, enum.AtomicOrderingSequentiallyConsistent, enum.AtomicOrderingMonotonic)
+		})
 		mc.use(in, p, c1, n1)
 	case 26:
 		p, x := mc.pick(f, tP32, c), mc.pick(f, tI32, d)
-		in = mc.via(func() ir.Instruction { return ir.NewAtomicRMW(enum.AtomicOpAdd, p, x, enum.AtomicOrderingAcquireRelease) }, func(vb *ir.Block) ir.Instruction { return vb.NewAtomicRMW(enum.AtomicOpAdd, p, x, enum.AtomicOrderingAcquireRelease) })
+		in = mc.via(func() ir.Instruction {
+			return ir.NewAtomicRMW(enum.AtomicOpAdd, p, x, enum.AtomicOrderingAcquireRelease)
+		}, func(vb *ir.Block) ir.Instruction {
+			return vb.NewAtomicRMW(enum.AtomicOpAdd, p, x, enum.AtomicOrderingAcquireRelease)
+		})
 		mc.use(in, p, x)
 	case 27:
 		x := mc.pick(f, tPair, c)
@@ -1177,13 +1185,31 @@ func (mc *machine) exec1(s Step) bool {
 			return false
 		}
 		def := &ir.AttrGroupDef{ID: ids[n]}
+		if mc.illFormed && n > 0 && s.B%5 == 1 {
+			// a group written as a literal without an ID, or numbered by hand with a
+			// number that is taken: two definitions share an ID
+			def.ID = mc.m.AttrGroupDefs[s.A%n].ID
+			mc.probes["two attribute groups share an ID"]++
+		}
 		for i, a := range []ir.FuncAttribute{enum.FuncAttrNoUnwind, enum.FuncAttrReadNone, enum.FuncAttrNoInline, ir.AttrString("probe-stack"), ir.AttrPair{Key: "frame-pointer", Value: "all"}} {
 			if (s.K+1)>>uint(i%3)&1 == 1 || i == s.K%5 {
 				def.FuncAttrs = append(def.FuncAttrs, a)
 			}
 		}
-		mc.m.AttrGroupDefs = append(mc.m.AttrGroupDefs, def)
-		if f := mc.fn(s.A); f != nil {
+		f := mc.fn(s.A)
+		if f != nil && s.B%5 == 0 && n > 0 {
+			// used by a function but never registered with the module
+			def.ID = ids[n] + 40
+			mc.probes["attribute group used but not registered with the module"]++
+		} else {
+			if mc.m.AttrGroupDefs == nil {
+				// (a client that knows how many groups it will add allocates once:
+				// the slice has spare capacity behind its length)
+				mc.m.AttrGroupDefs = make([]*ir.AttrGroupDef, 0, 16)
+			}
+			mc.m.AttrGroupDefs = append(mc.m.AttrGroupDefs, def)
+		}
+		if f != nil {
 			f.f.FuncAttrs = append(f.f.FuncAttrs, def)
 		}
 		mc.probes["attribute group with a hand-chosen ID appended"]++
@@ -1938,6 +1964,9 @@ func (mc *machine) exec1(s Step) bool {
 			switch s.D % 5 {
 			case 3:
 				target = f.f
+				if s.D%10 == 8 && len(mc.m.Globals) > 0 {
+					target = mc.m.Globals[s.C%len(mc.m.Globals)]
+				}
 			case 4:
 				if b.Term != nil {
 					target = b.Term
@@ -1953,6 +1982,25 @@ func (mc *machine) exec1(s Step) bool {
 			}
 			field.Set(reflect.Append(field, reflect.ValueOf(att)))
 			mc.probes["metadata attached"]++
+			if s.C%7 == 6 && field.Len() < 40 {
+				// A long list of attachments on one entity (a vtable has a !type
+				// attachment per base class): many of one kind, kinds not grouped,
+				// every one with a node of its own.
+				kinds := []string{"type", "note", "type", "zz.custom", "type", "absolute_symbol", "type", "aa.custom", "type", "dbg", "type", "note"}
+				n := 13 + s.A%8
+				for i := 0; i < n; i++ {
+					md := &metadata.Tuple{MetadataID: -1}
+					if mc.explicitMD {
+						md.MetadataID = metadata.MetadataID(2*len(mc.mds) + 1)
+					}
+					md.Fields = append(md.Fields, &metadata.String{Value: fmt.Sprintf("bulk%d.%d", s.A%17, i)})
+					mc.m.MetadataDefs = append(mc.m.MetadataDefs, md)
+					mc.mds = append(mc.mds, md)
+					a := &metadata.Attachment{Name: kinds[(i+s.B)%len(kinds)], Node: md}
+					field.Set(reflect.Append(field, reflect.ValueOf(a)))
+				}
+				mc.probes["entity with more than twelve metadata attachments"]++
+			}
 		case 3:
 			if len(mc.mds) == 0 {
 				return false
@@ -1979,6 +2027,27 @@ func (mc *machine) exec1(s Step) bool {
 	}
 	return false
 }
+
+// obsFailWriter accepts left bytes and fails from then on.
+type obsFailWriter struct {
+	left  int
+	short bool
+}
+
+func (w *obsFailWriter) Write(p []byte) (int, error) {
+	if len(p) <= w.left {
+		w.left -= len(p)
+		return len(p), nil
+	}
+	n := 0
+	if w.short {
+		n = w.left
+	}
+	w.left = 0
+	return n, errObsWriter
+}
+
+var errObsWriter = fmt.Errorf("observer's writer failed")
 
 func isUnnamed(n value.Named) bool {
 	type un interface{ IsUnnamed() bool }
@@ -2091,6 +2160,14 @@ func (mc *machine) observe(o Obs) (applied bool, bad string) {
 			return false, ""
 		}
 		mc.printedOnce = true
+		if o.B%4 == 3 {
+			// an observation whose destination fails (a full disk, a closed
+			// connection) after a few bytes, accepting part of the failing write
+			w := &obsFailWriter{left: (o.C % 64) * 9, short: o.A%2 == 0}
+			mc.m.WriteTo(w)
+			mc.probes["print observer whose writer failed"]++
+			return true, ""
+		}
 		return true, twice("m.WriteTo()", func() string {
 			var buf bytes.Buffer
 			mc.m.WriteTo(&buf)
